@@ -129,6 +129,15 @@ def check(ctx, env):
         stats[cfg] = st
         ctx.floor("R3.1", "reachable functions (%s)" % cfg, len(seen), 250 if cfg == "agent" else 300)
         ctx.floor("R3.1", "panic sites inventoried (%s)" % cfg, st["sites"], 120 if cfg == "agent" else 80)
+    if env.tier == "thorough":
+        # every feature subset of stun-rs (a #[cfg] mismatch only exists in specific subsets)
+        from .. import extract
+        for cfg in extract.feature_subset_configs():
+            prog = env.prog(cfg)
+            entries = P.entry_bodies(prog, ENTRIES_FULL)
+            seen, ext, ind = P.inventory(ctx, prog, "R3.1", entries)
+            st = P.check_sites(ctx, prog, "R3.1", "C03", seen, config_label="@" + cfg)
+            stats[cfg] = {"sites": st["sites"], "reachable_functions": len(seen)}
     ctx.extra["panic_sites"] = stats
     prog = env.prog("agent")
     r3_2_size(ctx, prog)
